@@ -18,7 +18,10 @@ levels connected by steps below `atol` (`sameLevel` = `Closure.closure`, the mod
 `comm_trans` — the kept part of a block the algorithm treats as commuting is transitive — as a hypothesis the proof of `B`/`Yadj` had forced; the code
 of that time decided "equal within atol" pair by pair and did *not* meet it for chains of close levels (defect D37: the hypothesis marked the spot).  With
 the repaired code and the model of its closure the clause is a theorem (`C01_kept_pattern_transitive`), and `C01_chains_of_close_levels` states C01 for
-`AcceptedCore` = `Accepted` without it.
+`AcceptedCore` = `Accepted` without it.  The clause `gap` ("an entry that is not kept has `|ΔE| > atol`", what lets the solver divide) excluded the point
+`|ΔE| = atol`, where the code of that time marked the pair for elimination and did not divide (defect D38); "equal" is now `|ΔE| ≤ atol` in code and model, the
+complement of the solver's test, and `C01_masks_and_denominators_agree` proves the clause inside blocks fully diagonalised by the list form (for masks given by
+the caller the code checks it: `C20_mask_eliminates_degenerate_pair`; between blocks it is `no_shared`, checked at first use).
 -/
 import PymaVerif.Proofs.Accepted
 import PymaVerif.Proofs.DriverSound
